@@ -75,7 +75,8 @@ def close(e, g):
 # defect had.
 L_FIXED = {"free-text-negation", "negation-over-sparse-field", "numeric-string-value-numeric-literal",
            "number-and-text-share-column", "int-value-decimal-literal", "by-field-sparse", "measure-field-sparse",
-           "measure-field-absent-from-dataset", "pq-ingest-negated-term", "pq-ingest-record-without-query-columns"}
+           "measure-field-absent-from-dataset", "pq-ingest-negated-term", "pq-ingest-record-without-query-columns",
+           "negated-numeric-term", "where-quoted-number-not-canonical"}
 
 
 def cls_sig(kind, cls):
@@ -640,8 +641,10 @@ def compare(impl, model):
                     if k not in er and "" in unhex(k).split("\x1f"):
                         del gr[k]
             if not gr and set(er) == {""} and mb.get("nmust") == "0":
-                # stats without by over NO matching event: the aggregate row over nothing (count 0) or no row at all — the
-                # engine's stats processor answers with no row when the time range holds no block at all
+                # stats without by over NO matching event has one row (count 0), whichever stage computes it (C06).
+                # (Repaired, patch c06-10: the engine's stats PROCESSOR answered with no row at all when the time range
+                # holds no block, while the search stage answered count 0.)
+                fails.append(("e2e/stats/no-row-over-no-event", "query %d: stats without by over no matching event returns no row at all; expected one row %s (aggs %s)" % (qi, er[""], mb.get("aggs"))))
                 continue
             if er != gr:
                 keys = sorted(set(er) | set(gr))
